@@ -107,6 +107,9 @@ func judgeStatsClean(sr *SearchRun, run QueryRun, qi int) *Violation {
 			return violf("query %d: Stats lists %d of the %d prefilter-surviving blocks of file %s (must be all or none)", qi, listed, surviving, f.Ptr)
 		}
 	}
+	if run.StatsPolled && processed+skipped >= 2 {
+		Ev.Class("query:stats-polled-in-flight,>=2-blocks")
+	}
 	if hasSkipped && hasProcessed {
 		Ev.Class("query:skipped-and-processed-blocks")
 		Ev.NonTrivial(hashStrings(jsonKey(run.Spec), sr.layoutShape(), fmt.Sprint(processed, skipped)))
@@ -330,7 +333,7 @@ func judgeC24(sr *SearchRun) *Violation {
 }
 
 func TestC23(t *testing.T) {
-	Ev.Rule = "clean phase: generated histories + queries (same space as C01), each query run to completion on healthy stores; oracle: one BlockStats entry per (file, offset), entries only for existing prefilter-surviving blocks, per file all-or-none of the surviving blocks, blocks of returned rows listed as processed, skipped => zero rows/bytes, processed => RowsProcessed == Rows and BytesProcessed == sum(len+4) of the rows read back independently, totals == per-block sums, RowsMatched == rows returned. Non-trivial: a query with >=1 bloom-skipped and >=1 processed block; distinct by hash(query, layout, counts). Fault / early-termination phase: see the cursor scripts (phase 'faults')."
+	Ev.Rule = "clean phase: generated histories + queries (same space as C01), each query run to completion on healthy stores, every second query with Stats also being polled while it is in flight (from another goroutine and between rows; only the snapshot after Next returned false is judged); oracle: one BlockStats entry per (file, offset), entries only for existing prefilter-surviving blocks, per file all-or-none of the surviving blocks, blocks of returned rows listed as processed, skipped => zero rows/bytes, processed => RowsProcessed == Rows and BytesProcessed == sum(len+4) of the rows read back independently, totals == per-block sums, RowsMatched == rows returned. Non-trivial: a query with >=1 bloom-skipped and >=1 processed block; distinct by hash(query, layout, counts). Fault / early-termination phase: see the cursor scripts (phase 'faults')."
 	Ev.Assumptions = []string{"'prefilter-surviving' is the library's own public EvaluateDataBlockMetadata verdict (its correctness is C04/C02's subject)"}
 	runChecks(t, "search", 250, 8000, genSearchCase(searchOpts, 10, true), runSearchProperty(judgeC23))
 	runChecks(t, "merged", 100, 4000, genSearchCase(mergeHeavyOpts, 10, true), runSearchProperty(judgeC23))
